@@ -377,7 +377,12 @@ fn gen_c10(c: &mut Choices) -> Case {
     composed.extend(pre.iter().cloned());
     composed.push(subject.clone());
     composed.extend(post.iter().cloned());
-    let alone = vec![subject.clone()];
+    let mut alone = vec![];
+    if g.labels.iter().any(|l| l == "subject=user-Fragment-alias-tag") {
+        // the subject references this binding: it belongs to the subject, not to the context
+        alone.push(Item::Raw(vue_line.clone().unwrap()));
+    }
+    alone.push(subject.clone());
     let (main, _) = g.assemble_items(&composed);
     let (main_alone, _) = g.assemble_items(&alone);
     // every distractor alone (with the subject removed)
